@@ -143,6 +143,19 @@ def main(tier=None, replay=None):
         t = cs.trace(f"{key[0]}|L{key[1]}|history degree 3 -> 4", {"history_matches_fresh": -120}, {"kind": "history", "system": key[0], "point": key[1]})
         ck.count(("cm-history", key[0], key[1]), True)
         cs.obs(t, "history_matches_fresh", max(float(np.max(np.abs(s4 - fresh_s))), float(np.max(np.abs(b4 - fresh_b)))))
+        # second history: the FULL normal form is requested through the same object (an alternative form that shares the
+        # pipeline of this point and degree), then points are converted again
+        try:
+            hist.compute("real_full_normal")
+        except Exception as ex:  # noqa
+            ck.notes.append(f"history: compute('real_full_normal') raised {type(ex).__name__} (detour skipped)")
+            continue
+        s5 = np.asarray(hist.to_synodic(p), dtype=float)
+        b5 = np.asarray(hist.to_cm(s5), dtype=float)
+        t = cs.trace(f"{key[0]}|L{key[1]}|history full normal form detour", {"history_matches_fresh": -120},
+                     {"kind": "history", "system": key[0], "point": key[1]})
+        ck.count(("cm-history-full", key[0], key[1]), True)
+        cs.obs(t, "history_matches_fresh", max(float(np.max(np.abs(s5 - fresh_s))), float(np.max(np.abs(b5 - fresh_b)))))
     cs.decide(key_fn=lambda t, n: f"center-manifold|{t['data']['kind']}|{n}")
     cs.selftest()
     ck.cov["rule"] = ("configurations enumerated by TLC from CMConfigs.tla (system x point x degree x {CM direction class | section "
